@@ -213,6 +213,61 @@ RemRet ==
   /\ UNCHANGED <<durable, volatile, nextSeq, ackedIds>>
 
 ---------------------------------------------------------------------------
+(* Storage faults on a live handle (the unknown-outcome tier of C01): a    *)
+(* backend mutation returns an ERROR and may or may not have been applied  *)
+(* (`landed`).  The code distinguishes two kinds of steps:                 *)
+(*  - steps after which it POISONS the handle (the document put of an      *)
+(*    update, the document delete of a remove, every step of a flush, a    *)
+(*    failed compensating delete): the handle is dead, only a reopen       *)
+(*    recovers - that is exactly Crash taken after (landed) or instead of  *)
+(*    (not landed) the step, so these need no action of their own;         *)
+(*  - steps after which the handle stays HEALTHY and the operation just    *)
+(*    fails: the watermark put and the document create of an add (the      *)
+(*    create is compensated by a delete), and the intent put of an update  *)
+(*    or remove.  What they may leave behind - a watermark the handle does *)
+(*    not know about, a retained intent nobody will retire before the next *)
+(*    reopen - must be harmless: the actions below put these states under  *)
+(*    every invariant.                                                     *)
+
+AddWmFail(landed) ==
+  /\ up /\ pc = "add_wm"
+  /\ dWM' = IF landed THEN Max2(mMaxId, cur.id) + Stride ELSE dWM
+  /\ pc' = "fail_ret"
+  /\ UNCHANGED <<dDoc, dMeta, dIds, dCP, dInt, dIdx, volatile, cur, nextSeq, ackedIds>>
+
+\* the create failed with something else than AlreadyExists: indexes rolled back, then the object is
+\* deleted in case the put did land
+AddDocFail(landed) ==
+  /\ up /\ pc = "add_doc" /\ AddAccepts(cur.id, cur.val) /\ dDoc[cur.id] = NoDoc
+  /\ dDoc' = IF landed THEN [dDoc EXCEPT ![cur.id] = cur.val] ELSE dDoc
+  /\ pc' = "add_comp"
+  /\ UNCHANGED <<dMeta, dIds, dCP, dWM, dInt, dIdx, volatile, cur, nextSeq, ackedIds>>
+
+AddCompDelete ==
+  /\ up /\ pc = "add_comp"
+  /\ dDoc' = [dDoc EXCEPT ![cur.id] = NoDoc]
+  /\ pc' = "fail_ret"
+  /\ UNCHANGED <<dMeta, dIds, dCP, dWM, dInt, dIdx, volatile, cur, nextSeq, ackedIds>>
+
+\* the intent put failed: nothing else was touched; if it landed the intent is retained but the handle
+\* does not know it (it is not pending: no flush of this handle retires it)
+IntentFail(s, landed) ==
+  /\ up /\ pc \in {"upd_intent", "rem_intent"}
+  /\ \A r \in dInt : r.seq < s
+  /\ dInt' = IF landed
+             THEN dInt \cup {[seq |-> s, id |-> cur.id, prev |-> cur.prev,
+                              post |-> IF cur.op = "update" THEN cur.val ELSE NoDoc]}
+             ELSE dInt
+  /\ nextSeq' = Max2(nextSeq, s + 1)
+  /\ pc' = "fail_ret"
+  /\ UNCHANGED <<dDoc, dMeta, dIds, dCP, dWM, dIdx, volatile, cur, ackedIds>>
+
+FailRet ==
+  /\ up /\ pc = "fail_ret"
+  /\ pc' = "idle" /\ cur' = NoCur
+  /\ UNCHANGED <<durable, volatile, nextSeq, ackedIds>>
+
+---------------------------------------------------------------------------
 (* save_extension: the WHOLE in-memory metadata is written by one          *)
 (* conditional put that does not claim the flush version                   *)
 (* (store_metadata_unclaimed).                                             *)
